@@ -18,15 +18,15 @@ import (
 
 // ---------------------------------------------------------------- CBOR tree
 
-// cnode is one CBOR data item. Leaves keep their original bytes.
-type cnode struct {
+// bnode is one CBOR data item. Leaves keep their original bytes.
+type bnode struct {
 	major byte
 	// width of the argument in the source: 0 (in the initial byte), 1, 2, 4, 8, 31 (indefinite)
 	width int
 	arg   uint64
 	// payload of a definite string; raw bytes (header included) of major 7 items
 	payload []byte
-	kids    []*cnode // array items, map keys/values alternating, tag content, chunks
+	kids    []*bnode // array items, map keys/values alternating, tag content, chunks
 	// position of the item in the parsed input (not updated by setForm/encode)
 	off, end int
 }
@@ -52,7 +52,7 @@ func widthOfAi(ai byte) int {
 }
 
 // parseCbor parses one item at b[pos:], returns the node and the position after it.
-func parseCbor(b []byte, pos int, depth int) (n *cnode, np int, err error) {
+func parseCbor(b []byte, pos int, depth int) (n *bnode, np int, err error) {
 	defer func() {
 		if err == nil && n != nil {
 			n.end = np
@@ -61,7 +61,7 @@ func parseCbor(b []byte, pos int, depth int) (n *cnode, np int, err error) {
 	return parseCbor1(b, pos, depth)
 }
 
-func parseCbor1(b []byte, pos int, depth int) (*cnode, int, error) {
+func parseCbor1(b []byte, pos int, depth int) (*bnode, int, error) {
 	if depth > 200 {
 		return nil, 0, errors.New("cbor: too deep")
 	}
@@ -69,7 +69,7 @@ func parseCbor1(b []byte, pos int, depth int) (*cnode, int, error) {
 		return nil, 0, errCborShort
 	}
 	ib := b[pos]
-	n := &cnode{major: ib >> 5, off: pos}
+	n := &bnode{major: ib >> 5, off: pos}
 	ai := ib & 0x1f
 	n.width = widthOfAi(ai)
 	if n.width < 0 {
@@ -167,7 +167,7 @@ func parseCbor1(b []byte, pos int, depth int) (*cnode, int, error) {
 		if err != nil {
 			return nil, 0, err
 		}
-		n.kids = []*cnode{k}
+		n.kids = []*bnode{k}
 		pos = np
 	case 7:
 		if n.width == 31 {
@@ -178,7 +178,7 @@ func parseCbor1(b []byte, pos int, depth int) (*cnode, int, error) {
 	return n, pos, nil
 }
 
-func parseCborAll(b []byte) (*cnode, error) {
+func parseCborAll(b []byte) (*bnode, error) {
 	n, p, err := parseCbor(b, 0, 0)
 	if err != nil {
 		return nil, err
@@ -203,7 +203,7 @@ func minWidth(v uint64) int {
 	return 8
 }
 
-func appendHead(out []byte, major byte, width int, arg uint64) []byte {
+func bAppendHead(out []byte, major byte, width int, arg uint64) []byte {
 	if mw := minWidth(arg); width != 31 && width < mw {
 		width = mw
 	}
@@ -225,26 +225,26 @@ func appendHead(out []byte, major byte, width int, arg uint64) []byte {
 }
 
 // encode re-serialises the tree with the widths stored in the nodes.
-func (n *cnode) encode(out []byte) []byte {
+func (n *bnode) encode(out []byte) []byte {
 	switch n.major {
 	case 0, 1:
-		return appendHead(out, n.major, n.width, n.arg)
+		return bAppendHead(out, n.major, n.width, n.arg)
 	case 2, 3:
 		if n.width == 31 {
-			out = appendHead(out, n.major, 31, 0)
+			out = bAppendHead(out, n.major, 31, 0)
 			for _, k := range n.kids {
 				out = k.encode(out)
 			}
 			return append(out, 0xff)
 		}
-		out = appendHead(out, n.major, n.width, uint64(len(n.payload)))
+		out = bAppendHead(out, n.major, n.width, uint64(len(n.payload)))
 		return append(out, n.payload...)
 	case 4, 5:
 		cnt := uint64(len(n.kids))
 		if n.major == 5 {
 			cnt /= 2
 		}
-		out = appendHead(out, n.major, n.width, cnt)
+		out = bAppendHead(out, n.major, n.width, cnt)
 		for _, k := range n.kids {
 			out = k.encode(out)
 		}
@@ -253,17 +253,17 @@ func (n *cnode) encode(out []byte) []byte {
 		}
 		return out
 	case 6:
-		out = appendHead(out, 6, n.width, n.arg)
+		out = bAppendHead(out, 6, n.width, n.arg)
 		return n.kids[0].encode(out)
 	default:
 		return append(out, n.payload...)
 	}
 }
 
-func (n *cnode) bytes() []byte { return n.encode(nil) }
+func (n *bnode) bytes() []byte { return n.encode(nil) }
 
 // walk visits every node (pre-order) with its depth.
-func (n *cnode) walk(depth int, f func(n *cnode, depth int)) {
+func (n *bnode) walk(depth int, f func(n *bnode, depth int)) {
 	f(n, depth)
 	for _, k := range n.kids {
 		k.walk(depth+1, f)
@@ -271,7 +271,7 @@ func (n *cnode) walk(depth int, f func(n *cnode, depth int)) {
 }
 
 // kid returns the i-th child or nil.
-func (n *cnode) kid(i int) *cnode {
+func (n *bnode) kid(i int) *bnode {
 	if n == nil || i < 0 || i >= len(n.kids) {
 		return nil
 	}
@@ -279,7 +279,7 @@ func (n *cnode) kid(i int) *cnode {
 }
 
 // mapGet returns the value stored under the unsigned-integer key k of a map node.
-func (n *cnode) mapGet(k uint64) *cnode {
+func (n *bnode) mapGet(k uint64) *bnode {
 	if n == nil || n.major != 5 {
 		return nil
 	}
@@ -295,7 +295,7 @@ func (n *cnode) mapGet(k uint64) *cnode {
 var formWidths = map[string]int{"min": 0, "w1": 1, "w2": 2, "w4": 4, "w8": 8, "indef": 31}
 
 // setForm changes the header form of n (indef only for arrays, maps and strings).
-func (n *cnode) setForm(form string) bool {
+func (n *bnode) setForm(form string) bool {
 	w, ok := formWidths[form]
 	if !ok || n == nil {
 		return false
@@ -311,7 +311,7 @@ func (n *cnode) setForm(form string) bool {
 			}
 			// one chunk (or none for the empty string)
 			if len(n.payload) > 0 {
-				n.kids = []*cnode{{major: n.major, width: 0, payload: n.payload}}
+				n.kids = []*bnode{{major: n.major, width: 0, payload: n.payload}}
 			}
 			n.payload = nil
 			n.width = 31
@@ -411,7 +411,7 @@ func fixtureOf(era string) *g10bFixture {
 // [invalid_transactions(null), transactions, null, null]. Body-hash validation
 // is off wherever it is used (C07/C01 decode with SkipBodyHashValidation).
 func synthDijkstra() []byte {
-	var dj, cw *cnode
+	var dj, cw *bnode
 	for i := range g10bFix {
 		n, err := parseCborAll(g10bFix[i].data)
 		if err != nil {
@@ -427,18 +427,18 @@ func synthDijkstra() []byte {
 	if dj == nil || cw == nil || len(dj.kids) != 2 || len(cw.kids) < 4 {
 		return nil
 	}
-	null := func() *cnode { return &cnode{major: 7, payload: []byte{0xf6}} }
+	null := func() *bnode { return &bnode{major: 7, payload: []byte{0xf6}} }
 	build := func(idx []int) []byte {
-		txs := &cnode{major: 4}
+		txs := &bnode{major: 4}
 		for _, i := range idx {
 			aux := cw.kids[3].mapGet(uint64(i))
 			if aux == nil {
 				aux = null()
 			}
-			txs.kids = append(txs.kids, &cnode{major: 4, kids: []*cnode{cw.kids[1].kids[i], cw.kids[2].kids[i], aux}})
+			txs.kids = append(txs.kids, &bnode{major: 4, kids: []*bnode{cw.kids[1].kids[i], cw.kids[2].kids[i], aux}})
 		}
-		body := &cnode{major: 4, kids: []*cnode{null(), txs, null(), null()}}
-		blk := &cnode{major: 4, kids: []*cnode{dj.kids[0], body}}
+		body := &bnode{major: 4, kids: []*bnode{null(), txs, null(), null()}}
+		blk := &bnode{major: 4, kids: []*bnode{dj.kids[0], body}}
 		return blk.bytes()
 	}
 	// keep the Conway transactions the Dijkstra decoder accepts (e.g. it rejects list-encoded redeemers)
